@@ -5,9 +5,10 @@ from . import e9
 PROPERTY = "C20"
 LEVEL = "other"
 FILES = r"^%s/cds/(intrusive|container)/" % _run.REPO
-NAMES = r"::(insert|insert_at|insert_with|update|update_at|update_with|upsert|erase|erase_|erase_at|erase_with|unlink|unlink_at|extract\w*|push|pop|enqueue\w*|dequeue\w*|do_\w+|emplace\w*|size|clear|get\w*|find\w*|contains|(lambda)::operator\(\))$"
+NAMES = r"."
 TUS = {
     "quick": ["test/unit/intrusive-list/intrusive_michael_hp.cpp", "test/unit/intrusive-list/intrusive_lazy_rcu_gpb.cpp",
+              "test/unit/intrusive-list/intrusive_lazy_hp.cpp", "test/unit/intrusive-list/intrusive_michael_rcu_gpb.cpp",
               "test/unit/intrusive-list/intrusive_iterable_dhp.cpp", "test/unit/intrusive-set/intrusive_skiplist_hp.cpp",
               "test/unit/tree/intrusive_ellenbintree_hp.cpp", "test/unit/intrusive-set/intrusive_feldman_hashset_hp.cpp",
               "test/unit/queue/msqueue_hp.cpp", "test/unit/stack/treiber_stack_hp.cpp", "test/unit/striped-set/intrusive_cuckoo_set.cpp",
@@ -34,5 +35,10 @@ def r20_1(ctx):
 r20_1.rule_id = "R20.1"
 
 
-RULES = [r20_1]
-FLOORS = {"R20.1": 200}
+def r20_2(ctx):
+    e9.rule_counter_reachability(ctx, "R20.2", r"/cds/(intrusive|container)/", reason=R)
+r20_2.rule_id = "R20.2"
+
+
+RULES = [r20_1, r20_2]
+FLOORS = {"R20.1": 200, "R20.2": 100}
